@@ -316,6 +316,47 @@ def goodGenerB (g : Gener) : Bool :=
         (if isBlank s then g.enthalpy.isEmpty else g.enthalpy.length == tableLenB g))
    | _ => false)
 
+def goodIndomB (e : Str × List Val) : Bool :=
+  e.1.length == 5 && !isBlank e.1 && e.2.length ≤ 4 && e.2.all (· != .none)
+def goodOptionsB (n : Nat) (opts : List Int) : Bool :=
+  opts.head? == some 0 && opts.length == n + 1 && (opts.drop 1).all (fun i => 0 ≤ i && i ≤ 9)
+def goodSelectionB (s : Selection) : Bool :=
+  (match s.integer.head? with | some (.int k) => k == Int.ofNat ((s.float.length + 7) / 8) | _ => false) && s.integer.length ≤ 16
+def goodDiffuB (d : T2Data) : Bool :=
+  match d.multi.get c!"num_components", d.multi.get c!"num_phases" with
+  | some (.int nc), some (.int np) => nc == Int.ofNat d.diffusion.length && np ≤ 8 && d.diffusion.all (fun r => Int.ofNat r.length == np)
+  | _, _ => false
+def visibleB (n : Str) : Bool := n.length == 5 && !isBlank (unfixBlockname n)
+def notSubKwB (n : Str) : Bool := !shortKeywords.contains (unfixBlockname n)
+def goodShortB (d : T2Data) : Bool :=
+  let s := d.short
+  let names := d.blocks.map (fun b => cycleNameB b.name)
+  !s.isEmpty &&
+  (match shortFreqText s with | .ok t => t.isEmpty || t.length == 2 | .error _ => false) &&
+  (match s.block with | some ns => ns.all (fun n => visibleB n && notSubKwB n && names.contains (cycleNameB n)) | none => true) &&
+  (match s.connection with
+   | some ps => ps.all (fun p => visibleB p.1 && p.2.length == 5 && notSubKwB p.1 &&
+       d.conns.any (fun c => cycleNameB c.b1 == cycleNameB p.1 && cycleNameB c.b2 == cycleNameB p.2))
+   | none => true) &&
+  (match s.generator with
+   | some ps => ps.all (fun p => visibleB p.1 && p.2.length == 5 && notSubKwB p.1 &&
+       d.gens.any (fun g => cycleNameB g.block == cycleNameB p.1 && cycleNameB g.name == cycleNameB p.2))
+   | none => true)
+def lastVisible (s : Str) : Bool := match s.getLast? with | some c => !isStrWs c | none => false
+def goodMeshB : MeshMaker → Bool
+  | .rz2d subs =>
+    (match subs.getLast? with | some (.layer _) => true | _ => false) &&
+    subs.dropLast.all (fun s => match s with | .layer _ => false | .equid d => !d.isEmpty | .logar d => !d.isEmpty | .radii xs => xs.all (· != .none))
+  | .xyz _ subs => subs.all (fun s =>
+      (match s.ntype with | .str t => t.length == 2 && !isBlank t && !t.contains '\n' | _ => false) &&
+      (match s.no with
+       | .int k => 0 ≤ k && (if s.del.isZero then (match s.deli with | some xs => Int.ofNat xs.length == k | none => false) else s.deli.isNone)
+       | _ => false))
+  | .minc m =>
+    (match m.type with | .str t => t.length == 5 && lastVisible t && !t.contains '\n' | _ => false) &&
+    (match m.dual with | .str t => t == c!"     " || (t.length == 5 && lastVisible t && !t.contains '\n') | _ => false) &&
+    (match m.where_ with | .str w => w.length == 4 && !w.contains '\n' | _ => false) && m.spacing.length ≤ 7
+
 def handleHyp (obj : List String) : String :=
   match parseJ obj with
   | some (j, []) =>
@@ -328,7 +369,13 @@ def handleHyp (obj : List String) : String :=
       "ok GoodRock(structural) " ++ cnt (d.rocks.map goodRockB) ++ " GoodGener(structural) " ++ cnt (d.gens.map goodGenerB) ++
         " GoodBlock " ++ cnt (d.blocks.map (goodBlockB d.rocks)) ++ " GoodConn " ++ cnt (d.conns.map (goodConnB names)) ++
         " GoodName(INCON) " ++ cnt (d.incon.map (fun e => goodNameB e.name)) ++ " Visible(FOFT,GOFT) " ++ cnt hist ++
-        " TIMES " ++ cnt (if d.outputTimes.isEmpty then [] else [timesHypB d.outputTimes])
+        " TIMES " ++ cnt (if d.outputTimes.isEmpty then [] else [timesHypB d.outputTimes]) ++
+        " GoodIndom " ++ cnt (d.indom.map goodIndomB) ++
+        " GoodOptions(PARAM,MOMOP) " ++ cnt ([goodOptionsB 24 d.option] ++ (if d.moreOption.any (· != 0) then [goodOptionsB 21 d.moreOption] else [])) ++
+        " GoodSelection " ++ cnt (match d.selection with | some s => [goodSelectionB s] | none => []) ++
+        " DIFFU " ++ cnt (if d.diffusion.isEmpty then [] else [goodDiffuB d]) ++
+        " GoodShort(structural) " ++ cnt (if d.short.isEmpty then [] else [goodShortB d]) ++
+        " GoodMesh(structural) " ++ cnt (d.meshmaker.map goodMeshB)
   | _ => "bad-request"
 
 def handle (ws : List String) : IO String :=
